@@ -226,6 +226,8 @@ impl C02 {
                 o.excl_f9_pow2_object = false;
                 o.excl_f5_global_logical_assign_in_operand = false;
                 o.excl_f17_catch_in_finally = false;
+                o.excl_f28_destructure_exhausted_iterator = false;
+                o.excl_f29_broken_iterator_in_pattern = false;
                 generate(rest, o).src
             }
             3 => crate::genp::arb::arb_source(rest)?,
